@@ -34,15 +34,14 @@ def main():
     ok = tests and p.returncode != 0 and c.returncode == 0
     results = {}
     if ok:
-        if sh("git -C /repo diff --quiet").returncode:
-            print("/repo not clean"); return 2
-        sh("git -C /repo apply %s/patch.diff" % D)
+        # run the checks against the scratch worktree WITH the patch applied (VERIF_REPO), /repo itself stays untouched
+        sh("git apply %s/patch.diff" % D, cwd=W)
         for cid in checks:
-            r = sh("VERIF_EVIDENCE_DIR=/tmp/seed_evidence ./check %s --tier %s" % (cid, os.environ.get("TIER", "quick")), cwd="/verif", timeout=3000)
+            r = sh("VERIF_REPO=%s VERIF_EVIDENCE_DIR=/tmp/seed_evidence ./check %s --tier %s" % (W, cid, os.environ.get("TIER", "quick")), cwd="/verif", timeout=3000)
             tail = [l for l in r.stdout.splitlines() if re.match(r"(VIOLATION|OK|KNOWN)", l)]
             print("  check %s:" % cid, tail)
             results[cid] = {"exit": r.returncode, "lines": tail}
-        sh("git -C /repo checkout -- .")
+        sh("git checkout -q -- .", cwd=W)
         sh("python3 tools/gen.py", cwd="/verif")
     name = id
     T = "/verif/seeded/" + name
@@ -53,7 +52,7 @@ def main():
     meta["demo_build_used"] = cmd.replace(W, "<worktree>").replace(D, "<dir>")
     meta["confirmed_by_me"] = {"how": "scratch worktree of /repo HEAD: git apply patch.diff; make testcpu && ./testcpu; demo built against the patched and the pristine tree",
                                "tests_pass_with_patch": tests, "demo_exit_patched": p.returncode, "demo_exit_clean": c.returncode, "kept": ok}
-    meta["check_result"] = {"command": "git -C /repo apply seeded/%s/patch.diff; ./check <id> --tier quick; git -C /repo checkout -- ." % name,
+    meta["check_result"] = {"command": "git -C /repo apply /verif/seeded/%s/patch.diff; ./check <id> --tier quick; git -C /repo checkout -- .   (run here as VERIF_REPO=<scratch worktree with the patch> ./check <id>)" % name,
                             "results": results, "caught": any(v["exit"] == 1 for v in results.values())}
     json.dump(meta, open(T + "/meta.json", "w"), indent=1)
     if ok:
